@@ -556,6 +556,11 @@ def step_case(rng, sec):
         x[i6] = rng.choice([F(-3), F(-1), F(0), F(1), F(3), F(1), F(-1)])
         X.append(x)
     R = [[rng.choice(half) for _ in range(6)] for _ in X]
+    if rng.random() < 0.6:      # direction indicator (whichever entry the code reads) mostly positive
+        for v in X[1:] + R:
+            for i in range(1, 6):
+                if i != i6 and rng.random() < 0.8:
+                    v[i] = abs(v[i]) + F(1, 2)
     dt = rng.choice([F(1, 4), F(1, 8), F(1, 2)])
     return {"sec": sec, "seed": seed, "X": X, "R": R, "dt": dt, "max_steps": max_steps}
 
@@ -640,7 +645,8 @@ def corr_step(ctx):
         broken(ctx, "correspondence:poincare_step",
                "%d of %d scripted runs of _poincare_step differ from the model (%s); first: section %s seed %r dt %s max_steps %d chain(section coordinate) %r: code %r model %r"
                % (len(bad), len(cases), why, c["sec"], fl(c["seed"]), c["dt"], c["max_steps"],
-                  [float(x[IDX6[c["sec"]]]) for x in c["X"]], [float(v) for v in real], None if model is None else fl(model)))
+                  [float(x[IDX6[c["sec"]]]) for x in c["X"]], [float(v) for v in real[1:6]] if int(real[0]) else None,
+                  None if model is None else fl(model)))
     else:
         ctx.obligations["correspondence:poincare_step"] = True
 
@@ -1025,8 +1031,11 @@ def check_map(ctx, C, res, check_returns=True, max_pairs=24):
                                "reference_first_return_state": y_ref.tolist(),
                                "reference": "scipy DOP853 rtol 1e-11 on _hamiltonian_rhs, first zero of %s with %s increasing" % (sec, sec),
                                "section_coordinate_rate_at_map_state": rate})
+                worst = None
                 break
             worst = max(worst, e_s)
+        if worst is None:
+            return defect, None, grad
         ctx.extra.setdefault("return_error", {})[tag + ":order%d:dt=%g" % (cfg["order"], dt)] = worst
         # energy "within integration accuracy": the defect must be explained by the measured accuracy of the returned points
         # (independent reference) — |dH| <= |grad H| * |dx| per return, accumulated over the iterations, margin 10
